@@ -54,15 +54,18 @@ META = {
         "merge in the options parser; in the merge the operand holding the tokenized block is the later (winning) one (dict display, |, |=, update, "
         "dict(a, **b), setdefault, M[k] = v with/without `k not in M` / `M.get(k) is None` - a guard on the *truthiness* of the block's value is not an absence "
         "guard); a function that hands the defaults to the validated dict without combining them with the block counts as the merge site too; behind the merge no store puts a possibly-default value under another key without an "
-        "absence test; a return that can be reached with defaults present but without their merge/validation must carry a warning or be one of the "
-        "two documented bypasses. "
+        "absence test; a return of the option parser that can be reached with defaults present but without their merge is a violation (a warning about the "
+        "block does not report the loss; only the docutils TestDirective path is tolerated) - this includes the validate_options=False path, whose raw YAML "
+        "mapping must be merged under the same priority rule; in parse_directive_text every path either calls the option parser with the defaults or appends "
+        "a warning under a test that they are present (directives without an option_spec). "
         "R3: the guards of the two MarkupError raises and of the re-split in parse_directive_arguments, as linear normal forms over {len(args), "
         "required, optional}, are exactly len < required / len > required+optional and not final_argument_whitespace / maxsplit = "
         "required+optional-1 under final_argument_whitespace; every path of parse_directive_text either calls parse_directive_arguments or crosses "
         "an edge establishing 'no arguments declared' (truth table over the test's leaves). "
         "R4: the options parser is only called under a test that implies a non-empty option_spec; the two option-style branches are mutually "
         "exclusive, each assigns the block text and re-assigns the remaining content on every path, and no flag set differently by them is tested "
-        "behind their join; tokenise / yaml load / spec lookup / convert / store / warn lie behind the join; per loop iteration the lookup-failure and "
+        "behind their join, both terminate the lines of the block text alike (separator join vs line-terminated join), and recognising the ':' style skips "
+        "spaces and tabs only (no bare lstrip()/strip(), no \\s class); tokenise / yaml load / spec lookup / convert / store / warn lie behind the join; per loop iteration the lookup-failure and "
         "conversion-failure paths store nothing and report exactly once, the success path stores exactly once (key = option name, value = converter "
         "result, converter = option_spec[name] - looked up by subscript, as docutils does: `.get()` or a membership test bypass a mapping's __getitem__, "
         "e.g. sphinx.ext.autodoc's DummyOptionSpec) and reports nothing; every return hands back the validated dict, a dict no option value can reach "
@@ -75,8 +78,8 @@ META = {
         "and `offset += 1` are control-equivalent, happen once and only under a blank test on body[0]; the first line is merged in front of the body "
         "only under a test that excludes whitespace-only text; no other statement removes, adds, reorders or rewrites body lines (pop/remove/clear/del, "
         "end slices, filtering comprehensions, append/extend, item stores). "
-        "R6: for every regex that cuts the content (parsed with re._parser) the number of newlines a match can contain is fixed, and pattern + "
-        "slice offset skip exactly one line terminator."
+        "R6: for every regex that cuts the content (parsed with re._parser) the number of newlines a match can contain is fixed, pattern + "
+        "slice offset skip exactly one line terminator, and the pattern matches a whole line (anchored at the line start and, after the marker and blanks, at the line end)."
     ),
     "not_decided": (
         "the exact partition (body lines / offset values) for every content layout; the values converters return; what dedent does to a --- block; "
@@ -1105,6 +1108,20 @@ def alias_closure(fi: FunctionInfo, name: str) -> set[str]:
     return s
 
 
+def copies_of(fi: FunctionInfo, name: str) -> set[str]:
+    """``name``, its inliner aliases, and every local that is bound to a plain copy of one of them (`x = name`)."""
+    s_ = set(alias_closure(fi, name))
+    changed = True
+    while changed:
+        changed = False
+        for n in fi.local_nodes():
+            if isinstance(n, ast.Assign) and len(n.targets) == 1 and isinstance(n.targets[0], ast.Name) and isinstance(n.value, ast.Name) and n.value.id in s_ and n.targets[0].id not in s_:
+                if all(isinstance(v, ast.Name) and v.id in s_ for _, v in simple_defs(fi, n.targets[0].id)):
+                    s_.add(n.targets[0].id)
+                    changed = True
+    return s_
+
+
 def real_assign(fi: FunctionInfo, names: set[str]):
     """Predicate: statement binds one of ``names`` to something that is not a plain copy within ``names``."""
 
@@ -1455,24 +1472,19 @@ def _bypass_verdict(vm, t: FunctionInfo, ret: ast.Return) -> tuple[str, str]:
     except Unsupported:
         call_bind = {}
     raw_params = {p_ for p_, e_ in call_bind.items() if "validate_options" in names_in(e_)}
-    if any(pol and isinstance(t_, ast.Name) and t_.id in raw_params for t_, pol in gs):
-        return ("listed", "validate_options=False (raw YAML requested by the caller)")
+    raw = any(pol and isinstance(t_, ast.Name) and t_.id in raw_params for t_, pol in gs)
     if any(pol and isinstance(t_, ast.Call) and dotted(t_.func) == "issubclass" and len(t_.args) == 2 and t.module.resolve(dotted(t_.args[1]) or "").endswith(".TestDirective") for t_, pol in gs):
         return ("listed", "docutils' TestDirective accepts anything (testing only)")
     if not isinstance(ret.value, ast.Call):
         return ("listed", "return shape not understood")
+    # a warning about something else (a malformed block, bad YAML) does not report the loss of the defaults:
+    # the externally supplied options (fence attributes such as {.cls #id}) are valid on their own and must still be applied
+    if raw:
+        return ("bad", "with validate_options=False the additional options are never merged under the YAML options")
     w = ctor_field(ret.value, vm.fields, vm.warn_field)
-    if isinstance(w, (ast.List, ast.Tuple)):
-        if w.elts:
-            return ("listed", "reported: the returned warnings list is not empty")
-        return ("bad", "valid defaults (e.g. fence attributes for fence_as_directive) vanish and unknown ones are dropped without the 'Unknown option keys' warning")
-    if isinstance(w, ast.Name):
-        ws = alias_closure(t, w.id)
-        counts = path_counts(cfg, ENTRY, [ret], lambda n: 1 if _stmt_calls(n, lambda c: any(_is_call_on(c, x, ("append", "extend", "insert")) for x in ws)) else 0).get(ret, set())
-        if counts and 0 not in counts:
-            return ("listed", "reported: a warning is appended on every path to this return")
-        return ("bad", "on some path no warning is recorded either: valid defaults vanish and unknown ones are dropped silently")
-    return ("listed", "warnings expression not understood")
+    if isinstance(w, (ast.List, ast.Tuple)) and w.elts or isinstance(w, ast.Name):
+        return ("bad", "whatever warning this path returns is about the option block, not about the defaults: valid defaults (e.g. the class and id of a fence rendered as a directive) are dropped")
+    return ("bad", "valid defaults (e.g. fence attributes for fence_as_directive) vanish and unknown ones are dropped without the 'Unknown option keys' warning")
 
 
 def _merge_verdict(corpus: Corpus, fi: FunctionInfo, add_param: str):
@@ -1481,11 +1493,21 @@ def _merge_verdict(corpus: Corpus, fi: FunctionInfo, add_param: str):
     if not toks:
         return None
     tok_seed: set[str] = set()
+    block_text: set[str] = set()
     for c in toks:
         st = _stmt(c)
         if isinstance(st, ast.Assign):
             for t in st.targets:
                 tok_seed.update(target_names(t))
+        for a_ in c.args:
+            for nm in names_in(a_):
+                block_text |= alias_closure(fi, nm)
+    # other readers of the block text (the full-YAML loader of validate_options=False) produce block options too
+    for n in fi.local_nodes():
+        if isinstance(n, ast.Assign) and any(isinstance(c_, ast.Call) and c_ not in toks and any(names_in(a_) & block_text for a_ in c_.args) and not (isinstance(c_.func, ast.Attribute) and isinstance(c_.func.value, ast.Name) and c_.func.value.id in block_text) and (dotted(c_.func) or "").rsplit(".", 1)[-1] not in ("dedent", "len", "str", "bool") for c_ in ast.walk(n.value)):
+            for t in n.targets:
+                if not (set(target_names(t)) & block_text):
+                    tok_seed.update(target_names(t))
     out = []
     for st in fi.local_nodes():
         if not isinstance(st, (ast.Assign, ast.AugAssign, ast.Expr, ast.AnnAssign)):
@@ -1609,6 +1631,18 @@ def r2_priority(corpus: Corpus, rep: Report, tier: str):
             return True
         return False
 
+    try:
+        ob_ = bind_args(vm.options_call, vm.f)
+    except Unsupported:
+        ob_ = None
+    if ob_ is not None and not any(names_in(e_) & _taint(entry, {"additional_options"}, None) for e_ in ob_.values()):
+        rep.violation(
+            "C08.R2",
+            f"{entry.fq}|additional_options is forwarded to the option merge",
+            entry.module.site(vm.options_call),
+            f"`{short(vm.options_call, 60)}` does not pass the externally supplied additional_options to the option parser: defaults (e.g. fence attributes for fence_as_directive) are never read in parse_directive_text's call and are silently dropped",
+        )
+        return
     hops, why = _forward(corpus, entry, "additional_options", goal_merge)
     k = f"{entry.fq}|additional_options is forwarded to the option merge"
     if hops is None:
@@ -1645,6 +1679,8 @@ def r2_priority(corpus: Corpus, rep: Report, tier: str):
                     k2 = f"{t.fq}|the validation loop iterates the merged options"
                     if vm.merged_name in _taint(t, set(tg), None):
                         rep.ok("C08.R2", k2, t.module.site(vm.loop))
+                    elif any(isinstance(ctor_field(c_, vm.fields, vm.options_field), ast.Name) and ctor_field(c_, vm.fields, vm.options_field).id in _taint(t, set(tg), None) for _, c_ in vm.returns):
+                        rep.ok("C08.R2", f"{t.fq}|the merged raw options are what the validate_options=False path returns|{short(st, 50)}", t.module.site(st))
                     else:
                         rep.error("C08.R2", f"the merge result {tg} is not the dict the validation loop iterates ({vm.merged_name})")
             elif verdict == "bad":
@@ -1675,7 +1711,7 @@ def r2_priority(corpus: Corpus, rep: Report, tier: str):
         def no_defaults_edge(x) -> bool:
             if not (isinstance(x, tuple) and x[0] in ("T", "F") and isinstance(x[1], (ast.If, ast.While))):
                 return False
-            pal = alias_closure(t, p)
+            pal = copies_of(t, p)
             for t_, pol in split_facts(x[1].test, x[0] == "T"):
                 if isinstance(t_, ast.Name) and t_.id in pal and not pol:
                     return True
@@ -1690,9 +1726,52 @@ def r2_priority(corpus: Corpus, rep: Report, tier: str):
             kb = f"{t.fq}|additional options are applied or their loss is reported|{short(n, 60)}"
             verdict = _bypass_verdict(vm, t, n) if t.fq == vm.f.fq else ("listed", "not the options parser")
             if verdict[0] == "bad":
-                rep.violation("C08.R2", kb, t.module.site(n), f"`{short(n, 60)}` can be reached with additional options supplied, without passing their merge and validation, and returns no warning: " + verdict[1])
+                rep.violation("C08.R2", kb, t.module.site(n), f"`{short(n, 60)}` can be reached with additional options supplied without passing their merge: " + verdict[1])
             else:
                 rep.listed("C08.R2", kb, t.module.site(n), "additional options are not applied on this path: " + verdict[1])
+    # (a') in parse_directive_text itself: on the path that skips the option parser (no option_spec) the defaults cannot be
+    # applied; they must then be reported (a warning appended under a test that they are present)
+    ecfg = get_cfg(entry)
+    ocall_st = ecfg.stmt_of(vm.options_call)
+    eres = ctor_returns(corpus, entry, "DirectiveParsingResult")
+    efields = dataclass_fields(corpus, corpus.cls(f"{MOD}:DirectiveParsingResult"))
+    if "warnings" in efields and eres:
+        pal_e = copies_of(entry, "additional_options")
+
+        def defaults_absent_edge(x) -> bool:
+            if not (isinstance(x, tuple) and x[0] in ("T", "F") and isinstance(x[1], (ast.If, ast.While))):
+                return False
+            for t_, pol in split_facts(x[1].test, x[0] == "T"):
+                if isinstance(t_, ast.Name) and t_.id in pal_e and not pol:
+                    return True
+                if isinstance(t_, ast.Compare) and len(t_.ops) == 1 and isinstance(t_.left, ast.Name) and t_.left.id in pal_e and isinstance(t_.comparators[0], ast.Constant) and t_.comparators[0].value is None:
+                    if (isinstance(t_.ops[0], ast.Is) and pol) or (isinstance(t_.ops[0], ast.IsNot) and not pol):
+                        return True
+            return False
+
+        for eret, ector in eres:
+            w_e = ctor_field(ector, efields, "warnings")
+            k = f"{entry.fq}|additional options are handed to the option parser or their loss is reported"
+            if not isinstance(w_e, ast.Name):
+                rep.error("C08.R2", "parse_directive_text: the returned warnings are not a local list")
+                continue
+            ws_e = alias_closure(entry, w_e.id)
+
+            def reports(x) -> bool:
+                if not isinstance(x, ast.stmt) or not _stmt_calls(x, lambda c: any(_is_call_on(c, w_, ("append", "extend", "insert")) for w_ in ws_e)):
+                    return False
+                return any(pol and isinstance(t_, ast.Name) and t_.id in pal_e for t_, pol in ecfg.guards(x)) or any(names_in(r_) & pal_e for r_ in _header_roots(x))
+
+            if ecfg.paths_avoiding(ENTRY, eret, lambda x: x is ocall_st or defaults_absent_edge(x) or reports(x)):
+                rep.violation(
+                    "C08.R2",
+                    k,
+                    entry.module.site(eret),
+                    "some path through parse_directive_text neither calls the option parser nor appends a warning about the additional options although they may be present: "
+                    "for a directive without an option_spec (epigraph, ...) the attributes of a fence rendered as a directive ({#id .cls}) vanish silently",
+                )
+            else:
+                rep.ok("C08.R2", k, entry.module.site(ocall_st))
     # (b) the fence_as_directive mechanism: token attributes -> parse_directive_text(additional_options=)
     base = corpus.mod("mdit_to_docutils.base")
     rf = base.func("DocutilsRenderer.render_fence")
@@ -2078,6 +2157,65 @@ def r3_argument_counts(corpus: Corpus, rep: Report, tier: str):
 # R4 one validation path for both option styles
 
 
+def _regex_leading_blank_is_wide(pattern: str) -> bool:
+    """Does the pattern start (after anchors) with an optional white-space item that can match more than space/tab?"""
+    import re._constants as C
+    import re._parser as P
+
+    try:
+        items = list(P.parse(pattern).data)
+    except Exception:
+        return False
+    for op, av in items:
+        if op is C.AT:
+            continue
+        if op in (C.MAX_REPEAT, C.MIN_REPEAT) and len(av[2]) == 1:
+            sop, sav = av[2][0]
+            if sop is C.IN:
+                return any(o is C.CATEGORY for o, a in sav) or any(o is C.LITERAL and chr(a) not in " \t" for o, a in sav if o is C.LITERAL) and any(o is C.LITERAL and chr(a).isspace() and chr(a) not in " \t" for o, a in sav)
+            if sop is C.LITERAL:
+                return chr(sav).isspace() and chr(sav) not in " \t"
+        return False
+    return False
+
+
+def _regex_first_char_style(pattern: str) -> str | None:
+    """':' or '---' when every match of the (start-anchored) pattern begins, after optional blanks, with that style's marker."""
+    import re._constants as C
+    import re._parser as P
+
+    try:
+        items = list(P.parse(pattern).data)
+    except Exception:
+        return None
+
+    def blank_set(av) -> bool:
+        return all((op is C.LITERAL and chr(a).isspace()) or (op is C.CATEGORY and a is C.CATEGORY_SPACE) for op, a in av)
+
+    i = 0
+    while i < len(items):
+        op, av = items[i]
+        if op in (C.MAX_REPEAT, C.MIN_REPEAT) and av[0] == 0 and len(av[2]) == 1:
+            sop, sav = av[2][0]
+            if (sop is C.IN and blank_set(sav)) or (sop is C.LITERAL and chr(sav).isspace()):
+                i += 1
+                continue
+        if op is C.AT:
+            i += 1
+            continue
+        break
+    if i >= len(items):
+        return None
+    op, av = items[i]
+    if op is C.LITERAL and chr(av) == ":":
+        return ":"
+    if op is C.LITERAL and chr(av) == "-":
+        return "---" if pattern.count("-") >= 3 or "{3" in pattern else None
+    if op in (C.MAX_REPEAT, C.MIN_REPEAT) and av[0] >= 3 and len(av[2]) == 1 and av[2][0][0] is C.LITERAL and chr(av[2][0][1]) == "-":
+        return "---"
+    return None
+
+
 def assigns_name(f: FunctionInfo, name: str):
     return lambda n: isinstance(n, ast.stmt) and any(s_ is n for s_, _ in simple_defs(f, name))
 
@@ -2117,9 +2255,23 @@ def r4_one_validation_path(corpus: Corpus, rep: Report, tier: str):
     styles: dict[str, ast.If] = {}
     for n in f.local_nodes():
         if isinstance(n, ast.If):
-            for c in ast.walk(n.test):
+            test_nodes = list(ast.walk(n.test))
+            for x_ in list(test_nodes):
+                if isinstance(x_, ast.Name):
+                    v_ = single_value(f, x_.id)
+                    if v_ is not None:
+                        test_nodes += list(ast.walk(v_))  # the test (or its regex match) hoisted into a local
+            for c in test_nodes:
+                sty_ = None
+                subject = None
                 if isinstance(c, ast.Call) and isinstance(c.func, ast.Attribute) and c.func.attr == "startswith" and len(c.args) == 1 and isinstance(c.args[0], ast.Constant) and c.args[0].value in ("---", ":"):
-                    roots = [x for x in ast.walk(c.func.value) if isinstance(x, ast.Name)]
+                    sty_, subject = c.args[0].value, c.func.value
+                elif isinstance(c, ast.Call) and m.resolve(dotted(c.func) or "") in ("re.match", "re.fullmatch") and len(c.args) >= 2 and isinstance(c.args[0], ast.Constant) and isinstance(c.args[0].value, str):
+                    # a regex anchored at the start of the content: the style is its first mandatory character
+                    sty_, subject = _regex_first_char_style(c.args[0].value), c.args[1]
+                if sty_ is not None:
+                    c = ast.Call(func=ast.Attribute(value=subject, attr="startswith", ctx=ast.Load()), args=[ast.Constant(value=sty_)], keywords=[])
+                    roots = [x for x in ast.walk(subject) if isinstance(x, ast.Name)]
 
                     def from_params(nm: str, depth: int = 0) -> bool:
                         # a parameter, or a local bound once to an expression over parameters (hoisted `content.lstrip()`)
@@ -2134,7 +2286,7 @@ def r4_one_validation_path(corpus: Corpus, rep: Report, tier: str):
                         v = single_value(f, nm)
                         return v is not None and bool(names_in(v)) and all(from_params(x, depth + 1) for x in names_in(v))
 
-                    if roots and all(from_params(x.id) for x in roots) and not cfg.loops.get(n):
+                    if sty_ is not None and roots and all(from_params(x.id) for x in roots) and not cfg.loops.get(n):
                         if c.args[0].value in styles and styles[c.args[0].value] is not n:
                             raise Unsupported(f"several branches test startswith({c.args[0].value!r})")
                         styles[c.args[0].value] = n
@@ -2208,6 +2360,91 @@ def r4_one_validation_path(corpus: Corpus, rep: Report, tier: str):
             rep.violation("C08.R4", k, site, f"a path through the {sty!r} branch reaches the result without re-assigning the remaining content `{C}`: the option lines leak into the body")
         else:
             rep.ok("C08.R4", k, site)
+    # ---- both styles hand the tokenizer equally terminated text: every line ends in a line feed, or none of the
+    # last lines does - a separator join (`"\n".join`) in one branch and a terminated join in the other makes the value of a
+    # trailing block scalar (`:alt: |`) depend on the style
+    def join_kind(c_: ast.AST) -> str | None:
+        if isinstance(c_, ast.Call) and isinstance(c_.func, ast.Attribute) and c_.func.attr == "join" and isinstance(c_.func.value, ast.Constant) and isinstance(c_.func.value.value, str):
+            sep = c_.func.value.value
+            if "\n" in sep:
+                return "separated"
+            if sep == "" and len(c_.args) == 1 and isinstance(c_.args[0], (ast.GeneratorExp, ast.ListComp)) and isinstance(c_.args[0].elt, ast.BinOp) and isinstance(c_.args[0].elt.op, ast.Add) and isinstance(c_.args[0].elt.right, ast.Constant) and c_.args[0].elt.right.value == "\n":
+                return "terminated"
+        return None
+
+    block_kinds: dict[str, set[str]] = {}
+    for sty, iff in styles.items():
+        branch = [st for st in cfg.nodes if isinstance(st, (ast.Assign, ast.AnnAssign, ast.AugAssign)) and cfg.dominates(("T", iff), st)]
+        names = set(VS)
+        kinds: set[str] = set()
+        grew = True
+        seen_st: set = set()
+        while grew:
+            grew = False
+            for st in branch:
+                if st in seen_st or getattr(st, "value", None) is None:
+                    continue
+                tg = [x for t_ in (st.targets if isinstance(st, ast.Assign) else [st.target]) for x in target_names(t_)]
+                if not (set(tg) & names):
+                    continue
+                seen_st.add(st)
+                grew = True
+                for c_ in ast.walk(st.value):
+                    jk = join_kind(c_)
+                    if jk:
+                        kinds.add(jk)
+                names |= names_in(st.value)
+        block_kinds[sty] = kinds
+    k = f"{f.fq}|both option styles terminate the lines of the block text alike"
+    if all(len(v_) == 1 for v_ in block_kinds.values()):
+        ks = {next(iter(v_)) for v_ in block_kinds.values()}
+        if len(ks) == 1:
+            rep.ok("C08.R4", k, m.site(styles[":"]), f"both {next(iter(ks))}")
+        else:
+            sep_sty = [s_ for s_, v_ in block_kinds.items() if v_ == {"separated"}][0]
+            rep.violation(
+                "C08.R4",
+                k,
+                m.site(styles[sep_sty]),
+                f"the {sep_sty!r} style builds the text for the option tokenizer with a separator join (last line without a line feed) while the other style terminates every line: "
+                "a block scalar written as the last option (`:alt: |` + continuation lines) loses its final line break in one style only, so the two styles are not interchangeable",
+            )
+    else:
+        rep.listed("C08.R4", k, m.site(styles[":"]), f"join kinds per style not comparable: { {s_: sorted(v_) for s_, v_ in block_kinds.items()} }")
+    # ---- recognising the ':' style skips indentation only: spaces and tabs, never line feeds or other Unicode white space
+    def wide_strips(root: ast.AST):
+        for c_ in ast.walk(root):
+            if isinstance(c_, ast.Call) and isinstance(c_.func, ast.Attribute) and c_.func.attr in ("lstrip", "strip") and not c_.keywords:
+                if not c_.args:
+                    yield c_, "strips every kind of white space, including line feeds and no-break spaces"
+                elif len(c_.args) == 1:
+                    a_ = _const_str(f, c_.args[0])
+                    if a_ is None:
+                        continue
+                    if set(a_) - set(" \t"):
+                        yield c_, f"strips {sorted(set(a_) - set(' ' + chr(9)))!r} as well"
+            if isinstance(c_, ast.Call) and m.resolve(dotted(c_.func) or "").startswith("re.") and c_.args and isinstance(c_.args[0], ast.Constant) and isinstance(c_.args[0].value, str) and _regex_leading_blank_is_wide(c_.args[0].value):
+                yield c_, "its leading white-space class matches line feeds / Unicode spaces"
+
+    colon = styles[":"]
+    roots_ = [colon.test] + [st for st in cfg.nodes if isinstance(st, ast.stmt) and cfg.dominates(("T", colon), st) for st in _header_roots(st)]
+    seen_ws = set()
+    n_ws = 0
+    for r_ in roots_:
+        for c_, why_ in wide_strips(r_):
+            if id(c_) in seen_ws:
+                continue
+            seen_ws.add(id(c_))
+            n_ws += 1
+            rep.violation(
+                "C08.R4",
+                f"{f.fq}|the ':' option style skips only spaces and tabs|{short(c_, 50)}",
+                m.site(c_),
+                f"`{short(c_, 50)}` {why_}: content that starts with a blank line followed by a ':field:' line is taken for an (empty) option block, and a line led by a "
+                "no-break space is consumed as an option although it is body text",
+            )
+    if not n_ws:
+        rep.ok("C08.R4", f"{f.fq}|the ':' option style skips only spaces and tabs", m.site(colon))
     # flags that differ by style and steer control flow behind the join
     in_branch: dict[str, dict[str, list[str]]] = defaultdict(dict)
     for sty, iff in styles.items():
@@ -2529,7 +2766,7 @@ def r4_one_validation_path(corpus: Corpus, rep: Report, tier: str):
             rep.violation("C08.R4", k, site, f"`{short(ret, 60)}` hands back option values from {src_} that never passed the option_spec lookup/conversion loop: unknown or invalid options are kept, unconverted and without a warning")
         else:
             rep.ok("C08.R4", k, site, "no option value can reach this dict (only empty-dict definitions reach the return)")
-    rep.expect_min("C08.R4", 25, "2x2 style-branch obligations, >=8 validation steps, 8 path classes, store roles, 4 returns")
+    rep.expect_min("C08.R4", 27, "2x2 style-branch obligations, >=8 validation steps, 8 path classes, store roles, 4 returns")
 
 
 # ---------------------------------------------------------------------------
@@ -3198,6 +3435,43 @@ def _newline_span(pattern: str, flags: int) -> tuple[int, int]:
     return seq(tree.data)
 
 
+def _whole_line_regex(pattern: str, flags: int):
+    """True: starts with ^ (line start) and ends at a line end ($ under MULTILINE, or a literal newline), with nothing but
+    blank classes between the last non-blank item and that end; False: provably not; None: not decided."""
+    import re._constants as C
+    import re._parser as P
+
+    try:
+        tree = P.parse(pattern, flags)
+    except Exception:
+        return None
+    items = list(tree.data)
+    multiline = bool(tree.state.flags & re_flag("MULTILINE"))
+    if not items:
+        return None
+    if not (items[0][0] is C.AT and items[0][1] in (C.AT_BEGINNING, C.AT_BEGINNING_STRING)):
+        return False
+    last_op, last_av = items[-1]
+    ends = (last_op is C.LITERAL and last_av == 10) or (last_op is C.AT and ((last_av is C.AT_END and multiline) or last_av is C.AT_END_STRING))
+    if not ends:
+        return False
+
+    def blank(op, av) -> bool:
+        if op is C.LITERAL:
+            return chr(av) in " \t\r"
+        if op is C.IN:
+            return all(o is C.LITERAL and chr(a) in " \t\r\f\v" for o, a in av)
+        if op in (C.MAX_REPEAT, C.MIN_REPEAT):
+            return all(blank(o, a) for o, a in av[2])
+        return False
+
+    # walk back from the end over blank items; what precedes must exist (the marker)
+    i = len(items) - 2
+    while i > 0 and blank(*items[i]):
+        i -= 1
+    return True if i >= 1 else None
+
+
 def re_flag(name: str) -> int:
     import re
 
@@ -3280,6 +3554,23 @@ def r6_delimiter_regex(corpus: Corpus, rep: Report, tier: str):
                         f"`{short(sub, 50)}`: the pattern consumes {lo} line terminator(s) and the slice skips {skip} more character(s); exactly one terminator must be skipped - "
                         + ("the delimiter's own newline stays in front of the body as a phantom blank line (it uses up the one optional blank-line strip)" if lo + skip == 0 else "characters of the first body line are cut off"),
                     )
+        if judged:
+            # a regex whose match cuts the content must match a whole line: anchored at a line start, and after the marker
+            # only blanks up to the line end - otherwise a longer line is split and its rest leaks into the body
+            k3 = f"{f.fq}|delimiter regex matches a whole line"
+            whole = _whole_line_regex(pat.value, _re_flags(flag_e))
+            if whole is True:
+                rep.ok("C08.R6", k3, site, f"{pat.value!r}")
+            elif whole is False:
+                rep.violation(
+                    "C08.R6",
+                    k3,
+                    site,
+                    f"the pattern {pat.value!r} is not anchored at the end of its line (only blanks may follow the marker up to the line end): it also matches a prefix of a longer line "
+                    "(a closing '---xy', '--- ' with trailing blanks), whose remaining characters are then cut off or rendered as body text, and the offset no longer addresses a content line",
+                )
+            else:
+                rep.error("C08.R6", f"{site}: cannot decide whether {pat.value!r} matches whole lines only")
         if judged or mname is None:
             rep.ok("C08.R6", k, site, f"{pat.value!r}: exactly {lo} newline(s)")
         else:
@@ -3427,9 +3718,33 @@ def mutants(corpus: Corpus):
     # the tokenizer-error return hands back unvalidated defaults (class: a return path carries options that bypassed the validation loop)
     th = find_node(fo, lambda n: isinstance(n, ast.ExceptHandler) and n.type is not None and "TokenizeError" in unparse(n.type))
     tret = next((x for x in ast.walk(th) if isinstance(x, ast.Return) and isinstance(x.value, ast.Call)), None) if th is not None else None
-    add("c08-tokenize-error-returns-raw-defaults", "C08.R4", splice(src, tret.value.args[1], "dict(additional_options or {})") if tret is not None and len(tret.value.args) > 1 else None, "returned options are validated")
-    oi = find_node(fo, lambda n: isinstance(n, ast.AnnAssign) and unparse(n.target) == "options" and isinstance(n.value, ast.Dict) and not n.value.keys)
-    add("c08-options-initialised-from-defaults", "C08.R4", splice(src, oi.value, "dict(additional_options or {})") if oi is not None else None, "returned options are validated")
+    # d2d064f reverted (1): the tokenizer-error path returns before the defaults are merged; and a variant handing them back raw
+    if th is not None and tret is None:
+        hl = th.body[-1]
+        indh = indent_of(fo, hl)
+        segh = ast.get_source_segment(src, hl)
+        add("c08-tokenize-error-returns-before-merge", "C08.R2", splice(src, hl, segh + f"\n{indh}return _DirectiveOptions(content, {{}}, validation_errors, has_options_block)"), "applied or their loss is reported", note="reverts d2d064f (tokenizer-error part)")
+        add("c08-tokenize-error-returns-raw-defaults", "C08.R4", splice(src, hl, segh + f"\n{indh}return _DirectiveOptions(content, dict(additional_options or {{}}), validation_errors, has_options_block)"), "returned options are validated")
+    else:
+        out.append(("c08-tokenize-error-returns-before-merge", "TokenizeError handler not found / already returns"))
+    # d2d064f reverted (2): the validate_options=False path no longer merges the defaults
+    ym = find_node(fo, lambda n: isinstance(n, ast.If) and len(n.body) == 1 and isinstance(n.body[0], ast.Assign) and isinstance(n.body[0].value, ast.Dict) and n.body[0].value.keys and all(k_ is None for k_ in n.body[0].value.keys) and "yaml" in unparse(n.body[0].targets[0]))
+    add("c08-yaml-path-drops-defaults", "C08.R2", splice(src, ym, "pass") if ym is not None else None, "applied or their loss is reported", note="reverts d2d064f (as_yaml part)")
+    # e7c3f33 reverted: no option_spec -> the defaults vanish without a warning
+    ew = find_node(ft, lambda n: isinstance(n, ast.If) and isinstance(n.test, ast.Name) and n.test.id == "additional_options" and any(isinstance(c, ast.Call) and unparse(c.func).endswith(".append") for c in ast.walk(n)))
+    add("c08-no-spec-defaults-dropped-silently", "C08.R2", splice(src, ew, "pass") if ew is not None else None, "handed to the option parser or their loss is reported", note="reverts e7c3f33")
+    # 7a2b3de reverted: the ':' style joins the option lines with a separator (last line unterminated)
+    yj = find_node(fo, lambda n: isinstance(n, ast.Assign) and unparse(n.targets[0]) == "options_block" and is_line_join(n.value) and "yaml_lines" in names_in(n.value))
+    add("c08-colon-block-unterminated", "C08.R4", splice(src, yj.value, '"\\n".join(yaml_lines)') if yj is not None else None, "terminate the lines of the block text alike", note="reverts 7a2b3de")
+    # eb03501 reverted: white space of every kind is skipped when recognising the ':' style
+    cm = find_node(fo, lambda n: isinstance(n, ast.If) and isinstance(n.test, ast.Call) and unparse(n.test.func) == "re.match" and len(n.test.args) == 2)
+    if cm is not None:
+        subj = unparse(cm.test.args[1])
+        add("c08-colon-style-detected-with-lstrip", "C08.R4", splice(src, cm.test, f'{subj}.lstrip().startswith(":") and not {subj}.lstrip().startswith(":::")'), "skips only spaces and tabs", note="reverts eb03501 (whole content)")
+    else:
+        out.append(("c08-colon-style-detected-with-lstrip", "regex test of the ':' style not found"))
+    ls = find_node(fo, lambda n: isinstance(n, ast.Call) and isinstance(n.func, ast.Attribute) and n.func.attr == "lstrip" and len(n.args) == 1 and isinstance(n.args[0], ast.Constant) and "content_lines" in unparse(n.func.value))
+    add("c08-option-line-lstrip-all-whitespace", "C08.R4", splice(src, ls, unparse(ls.func) + "()") if ls is not None else None, "skips only spaces and tabs", note="reverts eb03501 (per line)")
     stv = find_node(fo, lambda n: isinstance(n, ast.Assign) and isinstance(n.targets[0], ast.Subscript) and unparse(n.targets[0].value) == "new_options")
     add("c08-raw-value-stored", "C08.R4", splice(src, stv.value, "value") if stv is not None else None, "converted value")
     # tokenising moved into one style branch: the ':' branch parses eagerly, the shared call is skipped for it
@@ -3531,10 +3846,6 @@ def mutants(corpus: Corpus):
     add("c08-blank-content-early-return", "C08.R2", splice(src, first, f"if not content.strip():\n{ind0}    return _DirectiveOptions(content, {{}}, [], False)\n{ind0}" + ast.get_source_segment(src, first)), "applied or their loss is reported")
     hob = find_node(fo, lambda n: isinstance(n, ast.Assign) and isinstance(n.value, ast.Compare) and isinstance(n.value.ops[0], ast.IsNot) and isinstance(n.value.comparators[0], ast.Constant) and n.value.comparators[0].value is None)
     add("c08-no-block-early-return", "C08.R2", splice(src, hob, ast.get_source_segment(src, hob) + f"\n{indent_of(fo, hob)}if not {unparse(hob.targets[0])}:\n{indent_of(fo, hob)}    return _DirectiveOptions(content, {{}}, [], False)") if hob is not None else None, "applied or their loss is reported")
-    if tret is not None and len(tret.value.args) > 2 and isinstance(tret.value.args[2], ast.List):
-        add("c08-tokenize-error-not-reported", "C08.R2", splice(src, tret.value.args[2], "[]"), "applied or their loss is reported")
-    else:
-        out.append(("c08-tokenize-error-not-reported", "tokenizer-error return with a literal warnings list not found"))
     # ---- class: the option parser runs for directives that declare no options (R4)
     og = find_node(ft, lambda n: isinstance(n, ast.If) and isinstance(n.test, ast.Attribute) and n.test.attr == "option_spec")
     if og is not None:
@@ -3544,18 +3855,13 @@ def mutants(corpus: Corpus):
     else:
         out.append(("c08-option-spec-is-not-none", "truthiness test on option_spec not found"))
     # ---- class: the option-style tests are no longer exclusive (R4)
-    sty2 = find_node(fo, lambda n: isinstance(n, ast.If) and isinstance(parent(n), ast.If) and parent(n).orelse == [n] and any(isinstance(c, ast.Call) and isinstance(c.func, ast.Attribute) and c.func.attr == "startswith" for c in ast.walk(n.test)) and any(isinstance(c, ast.Constant) and c.value == "---" for c in ast.walk(parent(n).test)))
+    sty2 = find_node(fo, lambda n: isinstance(n, ast.If) and isinstance(parent(n), ast.If) and parent(n).orelse == [n] and any(isinstance(c, ast.Constant) and c.value == "---" for c in ast.walk(parent(n).test)))
     if sty2 is not None and segment_at(src, sty2, 4) == "elif":
         add("c08-style-tests-not-exclusive", "C08.R4", splice_at(src, sty2, 4, "if"), "cannot run after")
         test_src = ast.get_source_segment(src, sty2.test)
-        recv = next((c.func.value for c in ast.walk(sty2.test) if isinstance(c, ast.Call) and isinstance(c.func, ast.Attribute) and c.func.attr == "startswith"), None)
-        recv_src = ast.get_source_segment(src, recv) if recv is not None else None
-        if recv_src and not isinstance(recv, ast.Name):
-            ind = indent_of(fo, parent(sty2))
-            hoisted = splice(src, sty2.test, test_src.replace(recv_src, "_stripped"))
-            add("c08-style-test-hoisted-behind-first-branch", "C08.R4", splice_at(hoisted, sty2, 4, f"_stripped = {recv_src}\n{ind}if"), "cannot run after")
-        else:
-            out.append(("c08-style-test-hoisted-behind-first-branch", "receiver of the ':' test is already a local"))
+        ind = indent_of(fo, parent(sty2))
+        hoisted = splice(src, sty2.test, "_is_colon_style")
+        add("c08-style-test-hoisted-behind-first-branch", "C08.R4", splice_at(hoisted, sty2, 4, f"_is_colon_style = {test_src}\n{ind}if"), "cannot run after")
     else:
         out.append(("c08-style-tests-not-exclusive", "elif of the ':' style not found"))
     # ---- class: the parsed option block is memoised under a key that omits the content (R5)
@@ -3594,6 +3900,16 @@ def mutants(corpus: Corpus):
         add("c08-delimiter-regex-trailing-space-class", "C08.R6", splice(src, rx.args[0], repr(pat + r"\s*")), "delimiter regex")
     else:
         out.append(("c08-delimiter-regex-swallows-blank-lines", "re.search with a literal pattern not found"))
-    sl = find_node(fo, lambda n: isinstance(n, ast.Subscript) and isinstance(n.slice, ast.Slice) and n.slice.lower is not None and isinstance(n.slice.lower, ast.BinOp) and unparse(n.slice.lower).endswith(".end() + 1"))
-    add("c08-delimiter-newline-not-skipped", "C08.R6", splice(src, sl.slice.lower, unparse(sl.slice.lower.left)) if sl is not None else None, "remaining content starts right after")
+    if rx is not None and (rx.args[0].value.endswith("\n") or rx.args[0].value.endswith("\\n")):
+        # the delimiter's own line feed is neither matched nor skipped: it stays in front of the body
+        add("c08-delimiter-newline-not-skipped", "C08.R6", splice(src, rx.args[0], repr((rx.args[0].value[:-2] if rx.args[0].value.endswith("\\n") else rx.args[0].value[:-1]) + "$")), "remaining content starts right after")
+        # c0042fa reverted: the closing delimiter is matched as a prefix and one character behind it is skipped
+        sl = find_node(fo, lambda n: isinstance(n, ast.Subscript) and isinstance(n.slice, ast.Slice) and n.slice.lower is not None and n.slice.upper is None and unparse(n.slice.lower).endswith(".end()"))
+        if sl is not None:
+            new = splice(src, sl.slice.lower, unparse(sl.slice.lower) + " + 1")
+            add("c08-delimiter-matched-as-prefix", "C08.R6", new.replace(ast.get_source_segment(src, rx.args[0]), 'r"^-{3,}"', 1), "matches a whole line", note="reverts c0042fa")
+        else:
+            out.append(("c08-delimiter-matched-as-prefix", "slice at the match end not found"))
+    else:
+        out.append(("c08-delimiter-newline-not-skipped", "delimiter pattern does not end in a line feed"))
     return out
